@@ -43,13 +43,53 @@ pub fn to_crate(v: &Value) -> Option<CrateValue> {
     }
 }
 
+/// What a re-entrant writer encodes, into a writer of its own, while it
+/// serves a call of the encode in progress: a message that has nothing in
+/// common with the one in progress.
+fn sibling_encode() {
+    use rl2tp::avp::types as t;
+    let _ = guard(|| {
+        let mut w = rl2tp::common::VecWriter::new();
+        rl2tp::Message::<Vec<u8>>::Control(rl2tp::ControlMessage {
+            length: 0,
+            tunnel_id: 0x5151,
+            session_id: 0x5252,
+            ns: 0x5353,
+            nr: 0x5454,
+            avps: vec![
+                AVP::MessageType(t::MessageType::Hello),
+                AVP::HostName(t::HostName::from(b"nested-side-of-the-writer".to_vec())),
+                AVP::AssignedTunnelId(t::AssignedTunnelId { value: 0x5555 }),
+            ],
+        })
+        .write(&mut w);
+    });
+}
+
 /// Encode `v` with the real encoder into `w` (one top-level encode call).
+/// A `Reentrant*` writer that its check has not armed itself uses the
+/// library while it serves this call: during `depth + 1` consecutive calls
+/// from the `at`-th on it encodes an unrelated control message into a
+/// writer of its own.
 pub fn encode_into(v: &CrateValue, w: &mut SimWriter) -> Result<(), Caught> {
     w.begin_value();
-    guard(|| match v {
+    let armed_here = match (w.reentrant, w.reentry.is_none()) {
+        (Some((at, depth)), true) => {
+            w.reentry = Some((at as u64, Box::new(sibling_encode)));
+            w.reentry_span = depth as u64 + 1;
+            true
+        }
+        _ => false,
+    };
+    let r = guard(|| match v {
         CrateValue::Msg(m) => m.write(w),
         CrateValue::Avp(a) => a.write(w),
-    })
+    });
+    if armed_here {
+        w.reentry = None;
+        w.reentry_span = 1;
+    }
+    r
 }
 
 pub fn encode_fresh(v: &CrateValue) -> Result<Vec<u8>, Caught> {
